@@ -197,25 +197,58 @@ def _data_abort(S, cond, addr, is_write, fs5, alignment):
     raise_exc(S, cond, 'dabort', snap=T, alignment=z3.BoolVal(alignment))
 
 
+def _protection(S, addr, size, is_write, kind):
+    """PMSA protection checks of one MemA ('a') / MemU ('u') access when the harness runs with the MPU modelled
+    (cfg['mpu_k'] = MPUIR.DRegion, the number of regions scanned; None: MPU/MMU off, no checks).  An aligned access is
+    translated once at its address (B2.4.4 MemA_with_priv); an unaligned MemU access is performed byte by byte, each
+    byte translated on its own in ascending order (B2.4.5).  Unprivileged instructions (LDRT & co) set
+    S.unpriv_access: the check then uses User permissions whatever the mode."""
+    k = S.cfg.get('mpu_k')
+    if k is None:
+        return
+    from . import pmsa
+    ispriv = z3.BoolVal(False) if getattr(S, 'unpriv_access', False) else _b(S.privileged())
+    al = S._align(addr, size)
+    va = al if kind == 'a' else z3.If(S._legacy_align(), al, addr)
+    aligned = va == S._align(va, size)
+
+    def chk(a, cond, partial=False):
+        o = pmsa.translate_p(S, a, ispriv, z3.BoolVal(bool(is_write)), k)
+        S.unpredictable(z3.And(cond, z3.Not(aborted(S)), o['unpred']))
+        if partial:
+            # a store that faults after some of its bytes have been written: the architecture leaves the
+            # locations of an aborted store UNKNOWN -- no claim
+            S.unpredictable(z3.And(cond, z3.Not(aborted(S)), o['fault']))
+        _data_abort(S, z3.And(cond, o['fault']), a, is_write, o['fs'], False)
+    chk(va, aligned)
+    if kind == 'u' and size > 1:
+        for i in range(size):
+            chk(z3.simplify(va + i), z3.Not(aligned), partial=bool(is_write) and i > 0)
+
+
 def mem_u_read(S, addr, size):
     """MemU[addr,size]: records the alignment-fault abort; returns the value read when no fault"""
     _data_abort(S, S.mem_u_fault(addr, size), addr, False, 0b00001, True)
+    _protection(S, addr, size, False, 'u')
     return S.mem_u_get(addr, size)
 
 
 def mem_a_read(S, addr, size):
     _data_abort(S, S.mem_a_fault(addr, size), addr, False, 0b00001, True)
+    _protection(S, addr, size, False, 'a')
     return S.mem_a_get(addr, size)
 
 
 def mem_u_write(S, addr, size, value):
     """MemU[addr,size] = value (no write when this or an earlier access aborts)"""
     _data_abort(S, S.mem_u_fault(addr, size), addr, True, 0b00001, True)
+    _protection(S, addr, size, True, 'u')
     S.mem_u_set(addr, size, value, guard=z3.Not(aborted(S)))
 
 
 def mem_a_write(S, addr, size, value):
     _data_abort(S, S.mem_a_fault(addr, size), addr, True, 0b00001, True)
+    _protection(S, addr, size, True, 'a')
     S.mem_a_set(addr, size, value, guard=z3.Not(aborted(S)))
 
 
